@@ -60,6 +60,77 @@ theorem goodL_of_same_writer {s : St} {r : Res} (h : r.st.w = s.w) : GoodL s r :
 
 /-! ### Loops -/
 
+/-- Closed form of `iterAfterBody`. -/
+theorem iterAfterBody_eq (rb : Res) :
+    iterAfterBody rb =
+      (match rb.err with
+       | some e => if isSentinel e then
+            (if rb.st.c.brkD > 0 then .stop { rb.st with c := { rb.st.c with brkD := rb.st.c.brkD - 1 } } else .next rb.st)
+          else .abort { rb.st with c := { rb.st.c with err := some e } }
+       | none => if rb.st.c.brkD > 0 then .stop { rb.st with c := { rb.st.c with brkD := rb.st.c.brkD - 1 } } else .next rb.st) := by
+  unfold iterAfterBody
+  cases rb.err with
+  | none => rfl
+  | some e => cases h : isSentinel e <;> simp [h]
+
+/-- What `iterAfterBody` does with the writer, given that the body result is good. -/
+theorem iterAfterBody_writer (rb : Res) (h : rb.st.w.failed = true → rb.err = some Err.writer) :
+    (∀ st, iterAfterBody rb = .abort st → st.w = rb.st.w ∧ (rb.st.w.failed = true → st.c.err = some Err.writer)) ∧
+    (∀ st, iterAfterBody rb = .stop st → st.w = rb.st.w ∧ rb.st.w.failed = false) ∧
+    (∀ st, iterAfterBody rb = .next st → st.w = rb.st.w ∧ rb.st.w.failed = false) := by
+  rw [iterAfterBody_eq]
+  -- the two "no abort" shapes
+  have okCase : rb.st.w.failed = false →
+      (∀ st, (if rb.st.c.brkD > 0 then IterOut.stop { rb.st with c := { rb.st.c with brkD := rb.st.c.brkD - 1 } } else IterOut.next rb.st) = .abort st →
+          st.w = rb.st.w ∧ (rb.st.w.failed = true → st.c.err = some Err.writer)) ∧
+      (∀ st, (if rb.st.c.brkD > 0 then IterOut.stop { rb.st with c := { rb.st.c with brkD := rb.st.c.brkD - 1 } } else IterOut.next rb.st) = .stop st →
+          st.w = rb.st.w ∧ rb.st.w.failed = false) ∧
+      (∀ st, (if rb.st.c.brkD > 0 then IterOut.stop { rb.st with c := { rb.st.c with brkD := rb.st.c.brkD - 1 } } else IterOut.next rb.st) = .next st →
+          st.w = rb.st.w ∧ rb.st.w.failed = false) := by
+    intro hnf
+    by_cases hb : rb.st.c.brkD > 0
+    · simp only [hb, if_true]
+      refine ⟨?_, ?_, ?_⟩
+      · intro st e; cases e
+      · intro st e; cases e; exact ⟨rfl, hnf⟩
+      · intro st e; cases e
+    · simp only [hb, if_false]
+      refine ⟨?_, ?_, ?_⟩
+      · intro st e; cases e
+      · intro st e; cases e
+      · intro st e; cases e; exact ⟨rfl, hnf⟩
+  cases he : rb.err with
+  | some e =>
+    by_cases hs : isSentinel e = true
+    · have hnf : rb.st.w.failed = false := by
+        cases hf : rb.st.w.failed with
+        | false => rfl
+        | true => have := h hf; rw [he] at this; cases this; simp [isSentinel] at hs
+      simp only [hs, if_true]
+      exact okCase hnf
+    · have hs' : isSentinel e = false := by simpa using hs
+      simp only [hs', Bool.false_eq_true, if_false]
+      refine ⟨?_, ?_, ?_⟩
+      · intro st e'
+        cases e'
+        refine ⟨rfl, fun hf => ?_⟩
+        have := h hf; rw [he] at this; cases this; rfl
+      · intro st e'; cases e'
+      · intro st e'; cases e'
+  | none =>
+    have hnf : rb.st.w.failed = false := by
+      cases hf : rb.st.w.failed with
+      | false => rfl
+      | true => have := h hf; rw [he] at this; cases this
+    simp only
+    exact okCase hnf
+
+theorem sepWrite_good (n : Nat) (sep : Bytes) (s : St) : Good s (sepWrite n sep s) := by
+  unfold sepWrite
+  split
+  · exact St.write_good _ _
+  · exact good_of_same_writer rfl
+
 theorem cloopLoop_good (run : St → Res) (hrun : ∀ s, Good s (run s)) (ls : CLoopSpec) :
     ∀ (f : Nat) (v lim : Int) (n : Nat) (s : St), s.w.failed = false →
       (cloopLoop run ls f v lim n s).st.w.failed = true →
@@ -77,15 +148,9 @@ theorem cloopLoop_good (run : St → Res) (hrun : ∀ s, Good s (run s)) (ls : C
       | false => simp [hla, hs] at hf
       | true =>
         simp only [hla] at hf ⊢
-        -- separator
-        generalize hrs : (if (n > 0 && !ls.sep.isEmpty) = true then
-            St.write { s with c := s.c.setStatic ls.cnt (Val.int v) } ls.sep
-            else ok { s with c := s.c.setStatic ls.cnt (Val.int v) }) = rs at hf ⊢
         have hs1 : ({ s with c := s.c.setStatic ls.cnt (Val.int v) } : St).w.failed = false := hs
-        have grs : Good { s with c := s.c.setStatic ls.cnt (Val.int v) } rs := by
-          rw [← hrs]; split
-          · exact St.write_good _ _
-          · exact good_of_same_writer rfl
+        have grs := sepWrite_good n ls.sep { s with c := s.c.setStatic ls.cnt (Val.int v) }
+        generalize hrs : sepWrite n ls.sep { s with c := s.c.setStatic ls.cnt (Val.int v) } = rs at hf ⊢ grs
         cases hre : rs.err with
         | some e =>
           simp only [hre] at hf ⊢
@@ -96,39 +161,48 @@ theorem cloopLoop_good (run : St → Res) (hrun : ∀ s, Good s (run s)) (ls : C
         | none =>
           simp only [hre] at hf ⊢
           have hrsf : rs.st.w.failed = false := grs.notfailed hs1 (by rw [hre]; simp)
-          generalize hrb : run { rs.st with c := { rs.st.c with chQB := true } } = rb at hf ⊢
-          have grb : Good { rs.st with c := { rs.st.c with chQB := true } } rb := by rw [← hrb]; exact hrun _
           have hin : ({ rs.st with c := { rs.st.c with chQB := true } } : St).w.failed = false := hrsf
-          cases hrbe : rb.err with
-          | some e =>
-            by_cases hse : isSentinel e = true
-            · -- sentinel: the body did not fail a write
-              have hnf : rb.st.w.failed = false := grb.notfailed hin (by rw [hrbe]; intro h; cases h; simp [isSentinel] at hse)
-              simp only [hrbe, hse, if_true] at hf ⊢
-              cases hop : ls.cntOp <;> simp only [hop] at hf ⊢ <;> try (simp [hnf] at hf)
-              all_goals
-                split at hf
-                · simp [hnf] at hf
-                · split
-                  · simp_all
-                  · exact ih _ _ _ _ (by simpa using hnf) hf
-            · have hse' : isSentinel e = false := by simpa using hse
-              simp only [hrbe, hse'] at hf ⊢
-              simp only [Bool.false_eq_true, if_false] at hf ⊢
-              have hff : rb.st.w.failed = true := by simpa using hf
-              have := grb hin hff
-              rw [hrbe] at this; simp at this; subst this
-              simp
-          | none =>
-            have hnf : rb.st.w.failed = false := grb.notfailed hin (by rw [hrbe]; simp)
-            simp only [hrbe] at hf ⊢
-            cases hop : ls.cntOp <;> simp only [hop] at hf ⊢ <;> try (simp [hnf] at hf)
-            all_goals
-              split at hf
-              · simp [hnf] at hf
-              · split
-                · simp_all
-                · exact ih _ _ _ _ (by simpa using hnf) hf
+          have grb := hrun { rs.st with c := { rs.st.c with chQB := true } }
+          generalize hrb0 : run { rs.st with c := { rs.st.c with chQB := true } } = rb0 at hf ⊢ grb
+          have hgood : ({ rb0 with st := { rb0.st with c := { rb0.st.c with chQB := rs.st.c.chQB } } } : Res).st.w.failed = true →
+              ({ rb0 with st := { rb0.st with c := { rb0.st.c with chQB := rs.st.c.chQB } } } : Res).err = some Err.writer :=
+            fun h => grb hin h
+          obtain ⟨kA, kS, kN⟩ := iterAfterBody_writer _ hgood
+          generalize hio : iterAfterBody { rb0 with st := { rb0.st with c := { rb0.st.c with chQB := rs.st.c.chQB } } } = io at hf ⊢ kA kS kN
+          by_cases hop : (ls.cntOp == Op.inc || ls.cntOp == Op.dec) = true
+          · simp only [hop, if_true] at hf ⊢
+            cases io with
+            | abort st =>
+              simp only at hf ⊢
+              have k := kA st rfl
+              exact ⟨trivial, k.2 (by rw [← k.1]; exact hf)⟩
+            | stop st =>
+              simp only at hf
+              have k := kS st rfl
+              have : st.w.failed = false := by rw [k.1]; exact k.2
+              rw [show ({ st with c := st.c.setStatic ls.cnt (Val.int (stepVal ls.cntOp v)) } : St).w = st.w from rfl, this] at hf
+              cases hf
+            | next st =>
+              simp only at hf ⊢
+              have k := kN st rfl
+              exact ih _ _ _ _ (by show st.w.failed = false; rw [k.1]; exact k.2) hf
+          · have hop' : (ls.cntOp == Op.inc || ls.cntOp == Op.dec) = false := by simpa using hop
+            simp only [hop', Bool.false_eq_true, if_false] at hf ⊢
+            cases io with
+            | abort st =>
+              simp only at hf ⊢
+              have k := kA st rfl
+              exact ⟨trivial, k.2 (by rw [← k.1]; exact hf)⟩
+            | stop st =>
+              simp only at hf
+              have k := kS st rfl
+              have : rb0.st.w.failed = false := k.2
+              simp [this] at hf
+            | next st =>
+              simp only at hf
+              have k := kN st rfl
+              have : rb0.st.w.failed = false := k.2
+              simp [this] at hf
 
 theorem rloopLoop_good (run : St → Res) (hrun : ∀ s, Good s (run s)) (ls : RLoopSpec) :
     ∀ (items : List (Bytes × Val × InsKind)) (n : Nat) (s : St), s.w.failed = false →
@@ -141,13 +215,9 @@ theorem rloopLoop_good (run : St → Res) (hrun : ∀ s, Good s (run s)) (ls : R
     intro n s hs hf
     obtain ⟨k, v, ik⟩ := it
     rw [rloopLoop] at hf ⊢
-    generalize hs1 : ({ s with c := (if ls.key.isEmpty = true then s.c else s.c.set ls.key (Val.bytes k) InsKind.static).set ls.val v ik } : St) = s1 at hf ⊢
-    have hs1f : s1.w.failed = false := by rw [← hs1]; exact hs
-    generalize hrs : (if (n > 0 && !ls.sep.isEmpty) = true then St.write s1 ls.sep else ok s1) = rs at hf ⊢
-    have grs : Good s1 rs := by
-      rw [← hrs]; split
-      · exact St.write_good _ _
-      · exact good_of_same_writer rfl
+    have hs1f : (rIterStart ls k v ik s).w.failed = false := hs
+    have grs := sepWrite_good n ls.sep (rIterStart ls k v ik s)
+    generalize hrs : sepWrite n ls.sep (rIterStart ls k v ik s) = rs at hf ⊢ grs
     cases hre : rs.err with
     | some e =>
       simp only [hre] at hf ⊢
@@ -158,33 +228,22 @@ theorem rloopLoop_good (run : St → Res) (hrun : ∀ s, Good s (run s)) (ls : R
     | none =>
       simp only [hre] at hf ⊢
       have hrsf : rs.st.w.failed = false := grs.notfailed hs1f (by rw [hre]; simp)
-      generalize hrb : run rs.st = rb at hf ⊢
-      have grb : Good rs.st rb := by rw [← hrb]; exact hrun _
-      cases hrbe : rb.err with
-      | some e =>
-        by_cases hse : isSentinel e = true
-        · have hnf : rb.st.w.failed = false := grb.notfailed hrsf (by rw [hrbe]; intro h; cases h; simp [isSentinel] at hse)
-          simp only [hrbe, hse, if_true] at hf ⊢
-          split at hf
-          · simp [hnf] at hf
-          · split
-            · simp_all
-            · exact ih _ _ (by simpa using hnf) hf
-        · have hse' : isSentinel e = false := by simpa using hse
-          simp only [hrbe, hse'] at hf ⊢
-          simp only [Bool.false_eq_true, if_false] at hf ⊢
-          have hff : rb.st.w.failed = true := by simpa using hf
-          have := grb hrsf hff
-          rw [hrbe] at this; simp at this; subst this
-          simp
-      | none =>
-        have hnf : rb.st.w.failed = false := grb.notfailed hrsf (by rw [hrbe]; simp)
-        simp only [hrbe] at hf ⊢
-        split at hf
-        · simp [hnf] at hf
-        · split
-          · simp_all
-          · exact ih _ _ (by simpa using hnf) hf
+      have grb := hrun rs.st
+      obtain ⟨kA, kS, kN⟩ := iterAfterBody_writer (run rs.st) (fun h => grb hrsf h)
+      generalize hio : iterAfterBody (run rs.st) = io at hf ⊢ kA kS kN
+      cases io with
+      | abort st =>
+        simp only at hf ⊢
+        have k := kA st rfl
+        exact ⟨trivial, k.2 (by rw [← k.1]; exact hf)⟩
+      | stop st =>
+        simp only at hf
+        have k := kS st rfl
+        rw [k.1, k.2] at hf; cases hf
+      | next st =>
+        simp only at hf ⊢
+        have k := kN st rfl
+        exact ih _ _ (by rw [k.1]; exact k.2) hf
 
 theorem elseRun_goodL (run : St → Res) (hrun : ∀ s, Good s (run s)) (ne : Bool) (s : St) :
     GoodL s (elseRun run ne s) := by
@@ -202,45 +261,49 @@ theorem elseRun_goodL (run : St → Res) (hrun : ∀ s, Good s (run s)) (ne : Bo
     have := g.notfailed hs (by rw [hx]; simp)
     cases ne <;> simp [ok, this] at hf
 
+/-- After a loop whose iteration part satisfied the loop discipline. -/
+theorem afterLoop_goodL (runElse : Option (St → Res)) (helse : ∀ re, runElse = some re → ∀ s, GoodL s (re s))
+    (s0 : St) (r : LoopRes) (sElse : St) (hw : sElse.w = r.st.w)
+    (key : r.st.w.failed = true → r.abort = true ∧ r.st.c.err = some Err.writer) :
+    s0.w.failed = false → (afterLoop runElse r sElse).st.w.failed = true →
+      ((afterLoop runElse r sElse).err = some Err.writer ∨
+       ((afterLoop runElse r sElse).err = none ∧ (afterLoop runElse r sElse).st.c.err = some Err.writer)) := by
+  intro _ hf
+  unfold afterLoop at hf ⊢
+  by_cases hab : r.abort = true
+  · simp only [hab, if_true] at hf ⊢
+    have := key (by simpa [ok] using hf)
+    right; simp [ok, this.2]
+  · have hab' : r.abort = false := by simpa using hab
+    have hnf : r.st.w.failed = false := by
+      cases h : r.st.w.failed with
+      | false => rfl
+      | true => have := (key h).1; rw [hab'] at this; cases this
+    have hnf' : sElse.w.failed = false := by rw [hw]; exact hnf
+    simp only [hab', Bool.false_eq_true, if_false] at hf ⊢
+    by_cases hn : (r.n == 0) = true
+    · simp only [hn, if_true] at hf ⊢
+      cases hel : runElse with
+      | none => simp [hel, ok, hnf'] at hf
+      | some re =>
+        simp only [hel] at hf ⊢
+        exact helse re hel sElse hnf' hf
+    · have hn' : (r.n == 0) = false := by simpa using hn
+      simp [hn', ok, hnf'] at hf
+
 theorem cloopWith_goodL (run : St → Res) (hrun : ∀ s, Good s (run s)) (runElse : Option (St → Res))
     (helse : ∀ re, runElse = some re → ∀ s, GoodL s (re s)) (fuel : Nat) (ls : CLoopSpec) (s : St) :
     GoodL s (cloopWith run runElse fuel ls s) := by
   intro hs hf
-  unfold cloopWith at hf ⊢
-  generalize hr1 : cloopRange s.c ls.cntStatic ls.cntInit = r1 at hf ⊢
-  obtain ⟨cnt, c1⟩ := r1
-  cases cnt with
-  | error e => simp [ok, hs] at hf
-  | ok cnt =>
-    simp only at hf ⊢
-    generalize hr2 : cloopRange c1 ls.limStatic ls.lim = r2 at hf ⊢
-    obtain ⟨lim, c2⟩ := r2
-    cases lim with
-    | error e => simp [ok, hs] at hf
-    | ok lim =>
-      simp only at hf ⊢
-      have hs2 : ({ s with c := c2 } : St).w.failed = false := hs
-      have key := cloopLoop_good run hrun ls fuel cnt lim 0 { s with c := c2 } hs2
-      generalize hr : cloopLoop run ls fuel cnt lim 0 { s with c := c2 } = r at hf ⊢ key
-      by_cases hab : r.abort = true
-      · simp only [hab, if_true] at hf ⊢
-        have := key (by simpa [ok] using hf)
-        right; simp [ok, this.2]
-      · have hab' : r.abort = false := by simpa using hab
-        have hnf : r.st.w.failed = false := by
-          cases h : r.st.w.failed with
-          | false => rfl
-          | true => have := (key h).1; rw [hab'] at this; cases this
-        simp only [hab', Bool.false_eq_true, if_false] at hf ⊢
-        by_cases hn : (r.n == 0) = true
-        · simp only [hn, if_true] at hf ⊢
-          cases hel : runElse with
-          | none => simp [hel, ok, hnf] at hf
-          | some re =>
-            simp only [hel] at hf ⊢
-            exact helse re hel r.st hnf hf
-        · have hn' : (r.n == 0) = false := by simpa using hn
-          simp [hn', ok, hnf] at hf
+  unfold cloopWith cloopAfter at hf ⊢
+  cases hb : (loopBounds s.c ls).2 with
+  | none => simp [hb, ok, hs] at hf
+  | some p =>
+    obtain ⟨cnt, lim⟩ := p
+    simp only [hb] at hf ⊢
+    have hs2 : ({ s with c := (loopBounds s.c ls).1 } : St).w.failed = false := hs
+    exact afterLoop_goodL runElse helse s _ _ rfl
+      (cloopLoop_good run hrun ls fuel cnt lim 0 { s with c := (loopBounds s.c ls).1 } hs2) hs hf
 
 theorem rloopWith_goodL (run : St → Res) (hrun : ∀ s, Good s (run s)) (runElse : Option (St → Res))
     (helse : ∀ re, runElse = some re → ∀ s, GoodL s (re s)) (ls : RLoopSpec) (s : St) :
@@ -255,27 +318,8 @@ theorem rloopWith_goodL (run : St → Res) (hrun : ∀ s, Good s (run s)) (runEl
     | none => simp [hgv, ok, hs] at hf
     | some vv =>
       simp only [hgv] at hf ⊢
-      have key := rloopLoop_good run hrun ls (loopItems vv sub) 0 s hs
-      generalize hr : rloopLoop run ls (loopItems vv sub) 0 s = r at hf ⊢ key
-      by_cases hab : r.abort = true
-      · simp only [hab, if_true] at hf ⊢
-        have := key (by simpa [ok] using hf)
-        right; simp [ok, this.2]
-      · have hab' : r.abort = false := by simpa using hab
-        have hnf : r.st.w.failed = false := by
-          cases h : r.st.w.failed with
-          | false => rfl
-          | true => have := (key h).1; rw [hab'] at this; cases this
-        simp only [hab', Bool.false_eq_true, if_false] at hf ⊢
-        by_cases hn : (r.n == 0) = true
-        · simp only [hn, if_true] at hf ⊢
-          cases hel : runElse with
-          | none => simp [hel, ok, hnf] at hf
-          | some re =>
-            simp only [hel] at hf ⊢
-            exact helse re hel { r.st with c := { r.st.c with err := none } } hnf hf
-        · have hn' : (r.n == 0) = false := by simpa using hn
-          simp [hn', ok, hnf] at hf
+      exact afterLoop_goodL runElse helse s _ _ rfl
+        (rloopLoop_good run hrun ls (loopItems vv sub) 0 s hs) hs hf
 
 theorem loopNode_good (loop : St → Res) (hl : ∀ s, GoodL s (loop s)) (s : St) : Good s (loopNode loop s) := by
   intro hs hf
